@@ -76,6 +76,393 @@ theorem key_is_from_the_issuers_document (cfg : Cfg) (P : Crypto) (E : Env) (au 
   cases hd'
   exact ⟨d, doc, p, k, hd, hr, hp, hm, hsig⟩
 
+/-! ## non-vacuity: a concrete world in which the hypotheses above are met -/
+
+def exCfg : Cfg := { maxSkew := 5000, supportedAlgs := ["ES256"] }
+/-- toy crypto: the signature of `m` under key `k` is `k ++ m`; canonical forms are injective on the members that vary below -/
+def exP : Crypto :=
+  { canon := fun c => c.issuer ++ "|" ++ (c.id.getD "") ++ "|" ++ toString c.issued, canonVP := fun vp => vp.holder.getD "-",
+    canonProof := fun p => p.vm ++ "|" ++ toString p.created,
+    digest := fun b => b ++ ";", jwtInput := fun r => r, sigOK := fun k m s => s == k ++ m }
+def exSign : Key → Bytes → Sig := fun k m => k ++ m
+def exE : Env :=
+  { now := 0
+    resolve := fun _ d => if d == "did:x:i" then some { assertion := [("did:x:i#k", "K1")] } else none
+    revoked := fun _ => false, statusList := fun _ => none
+    trusted := fun t i => t == "T" && i == "did:x:i"
+    parseDID := fun s => if s == "did:x:i" then some s else none
+    didOfURL := fun s => if beforeHash s == "did:x:i" then some "did:x:i" else none }
+def exProof : Proof := { typ := "JsonWebSignature2020", vm := "did:x:i#k", purpose := "assertionMethod", created := 1000 }
+def exU : Cred :=
+  { format := .ld, ctx := [vcContextV1], id := some "did:x:i#1", types := ["T", vcType], issuer := "did:x:i", issued := 1000,
+    subjects := some [.did "did:x:i"] }
+def exC : Cred := { exU with proof := .one { exProof with jws := exSign "K1" (tbs exP exProof (exP.canon exU)) }, nProofs := 1 }
+def exJ : Cred :=
+  { exU with format := .jwt, raw := "hdr.claims", jwt := some { kid := "did:x:i#k", alg := "ES256", nbf := some 1000, sig := exSign "K1" "hdr.claims" } }
+def exVP : Pres :=
+  { format := .ld, holder := some "did:x:i", vcs := [exC], nProofs := 1, signerVM := "did:x:i#k",
+    proof := .one { exProof with jws := exSign "K1" (tbs exP exProof "did:x:i") } }
+def exEmptyVP : Pres :=
+  { format := .ld, holder := some "did:x:somebody-else", vcs := [], nProofs := 1, signerVM := "did:x:i#k",
+    proof := .one { exProof with jws := exSign "K1" (tbs exP exProof "did:x:somebody-else") } }
+def exM0 : Bytes := tbs exP exProof (exP.canon exU)
+def exP2 : Crypto := { exP with sigOK := fun k m s => k == "K1" && m == exM0 && s == "S0" }
+def exC2 : Cred := { exU with proof := .one { exProof with jws := "S0" }, nProofs := 1 }
+def exT : Template := { ctx := [vcContextV1], types := ["T"], issuer := "did:x:i", expires := none, subjects := some [.did "did:x:i"], shapeOK := true, claims := [] }
+
+/-! ## 2b. presentations -/
+
+/-- A presentation reported valid is signed (same conjuncts as for a credential, with the SIGNER's DID in the place of
+    the issuer: the key id belongs to the signer, the key is an assertion key of the signer's document at the validation
+    time) by the SUBJECT OF EVERY CREDENTIAL IT CARRIES; when it carries credentials, a `holder` member — if present — is
+    that same DID; and every carried credential is itself reported valid by `Verify` (its own signature being checked,
+    except for a credential without proof issued by the holder = signer itself). -/
+theorem vp_valid_only_if (cfg : Cfg) (P : Crypto) (E : Env) (au : Bool) (at_ : Option Time) (vp : Pres)
+    (h : verifyVP cfg P E true au at_ vp = .ok ()) :
+    ∃ s, presentationSigner E vp = some s ∧
+      (∀ c ∈ vp.vcs, subjectDID c = some s) ∧
+      (vp.vcs ≠ [] → vp.holder = none ∨ vp.holder = some s) ∧
+      VpSigValid cfg P E at_ vp s ∧
+      (∀ c ∈ vp.vcs, verify cfg P E au (vcCheckSig vp c) at_ c = .ok ()) ∧
+      (∀ c ∈ vp.vcs, vcCheckSig vp c = false → c.issuer = s ∧ c.nProofs = 0) := by
+  obtain ⟨s, d, hs, hd, hsd, hh, hsig, hvcs⟩ := verifyVP_ok_iff.mp h
+  have hall : ∀ c ∈ vp.vcs, subjectDID c = some s := by
+    intro c hc
+    rcases resolveSubjectDID_all hd with ⟨hnil, _⟩ | ⟨_, hsub⟩
+    · rw [hnil] at hc; cases hc
+    · cases hsd with
+      | inl e => rw [e]; exact hsub c hc
+      | inr e => rw [e] at hc; cases hc
+  have hhold : vp.vcs ≠ [] → vp.holder = none ∨ vp.holder = some s := by
+    intro hne
+    cases hsd with
+    | inl e => exact hh e
+    | inr e => exact absurd e hne
+  refine ⟨s, hs, hall, hhold, hsig, hvcs rfl, ?_⟩
+  intro c hc hcs
+  unfold vcCheckSig at hcs
+  split at hcs
+  · rename_i hcond
+    have hne : vp.vcs ≠ [] := by intro e; rw [e] at hc; cases hc
+    simp at hcond hcs
+    cases hhold hne with
+    | inl h0 => rw [h0] at hcond; simp at hcond
+    | inr h1 => rw [h1] at hcond; simp at hcond; exact ⟨hcond.symm, by omega⟩
+  · cases hcs
+
+/-- `VerifyVP` accepts exactly when all its checks pass; the order of the three head checks is irrelevant for acceptance -/
+theorem vp_check_order_irrelevant_for_accept (cfg : Cfg) (P : Crypto) (E : Env) (vf au : Bool) (at_ : Option Time) (vp : Pres) :
+    (verifyVP cfg P E vf au at_ vp = .ok () ↔ VpAccept cfg P E vf au at_ vp) ∧
+    (∀ l', (vpHeadChecks E).Perm l' → (runChecks l' vp = .ok () ↔ runChecks (vpHeadChecks E) vp = .ok ())) :=
+  ⟨verifyVP_ok_iff, fun _ hp => (runChecks_perm hp vp).symm⟩
+
+/-- the binding of `holder` to the signer exists only when the presentation carries credentials: an empty presentation
+    with an arbitrary `holder` member is accepted (the node identifies the presenter by the signer, never by `holder`) -/
+theorem empty_presentation_holder_is_not_checked :
+    ∃ (cfg : Cfg) (P : Crypto) (E : Env) (vp : Pres) (s : String),
+      verifyVP cfg P E true false (some 2000) vp = .ok () ∧ presentationSigner E vp = some s ∧ vp.holder ≠ some s ∧ vp.holder ≠ none :=
+  ⟨exCfg, exP, exE, exEmptyVP, "did:x:i", by decide, by decide, by decide, by decide⟩
+
+/-! ## 3. tamper evidence (CONDITIONAL: unforgeability, SHA-256, and the canonicalisation contract are hypotheses) -/
+
+/-- Linked-data credential.  Let `c` be a document with proof options `p`, and let `c'` be any document presented to the
+    node.  Hypotheses: `hEUF` — a signature that verifies under a key was made with that key (`Signed`); `hOnly` — the keys
+    that the issuer's DID document authorises for `c'` at the validation time have signed nothing but `c` with options `p`
+    (the attacker has no authorised key and no other document signed by one); `hTbs` — digest(proof) ‖ digest(document)
+    determines both canonical forms (SHA-256 collision freedom, fixed length); `hCanon` / `hCanonProof` — the
+    canonicalisation contract for these two documents: equal canonical bytes imply agreement on id, types, issuer,
+    issuance and expiration date, subject ids, status entries and every claim the JSON-LD context defines, resp. on every
+    proof option.  Then a `c'` that differs from `c` in any of those members, or in any proof option, is NOT reported valid. -/
+theorem tamper_evident (cfg : Cfg) (P : Crypto) (E : Env) (au : Bool) (at_ : Option Time)
+    (Signed : Key → Bytes → Prop) (defined : String → Bool)
+    (c c' : Cred) (p : Proof)
+    (hEUF : ∀ k m s, P.sigOK k m s = true → Signed k m)
+    (hTbs : ∀ p' : Proof, c'.proof = .one p' → tbs P p' (P.canon c'.stripProof) = tbs P p (P.canon c.stripProof) →
+        P.canonProof p'.options = P.canonProof p.options ∧ P.canon c'.stripProof = P.canon c.stripProof)
+    (hCanon : P.canon c'.stripProof = P.canon c.stripProof → signedView defined c' = signedView defined c)
+    (hCanonProof : ∀ p' : Proof, c'.proof = .one p' → P.canonProof p'.options = P.canonProof p.options → p'.options = p.options)
+    (hfmt : c'.format = .ld)
+    (hOnly : ∀ k p', c'.proof = .one p' → AuthorisedAt E at_ p'.vm k → ∀ m, Signed k m → m = tbs P p (P.canon c.stripProof))
+    (hdiff : signedView defined c' ≠ signedView defined c ∨ ∀ p', c'.proof = .one p' → p'.options ≠ p.options) :
+    verify cfg P E au true at_ c' ≠ .ok () := by
+  intro hv
+  obtain ⟨_, _, _, _, _, _, hsig⟩ := verify_ok_iff.mp hv
+  obtain ⟨_, hsv⟩ := hsig rfl
+  unfold SigValid at hsv
+  simp only [hfmt] at hsv
+  obtain ⟨_, _, p', k, hp', _, _, ha, _, hs, _⟩ := hsv
+  simp only at hp'
+  have hm := hOnly k p' hp' ha _ (hEUF _ _ _ hs)
+  obtain ⟨h1, h2⟩ := hTbs p' hp' hm
+  cases hdiff with
+  | inl h => exact h (hCanon h2)
+  | inr h => exact h p' hp' (hCanonProof p' hp' h1)
+
+theorem tamper_evident_jwt (cfg : Cfg) (P : Crypto) (E : Env) (au : Bool) (at_ : Option Time)
+    (Signed : Key → Bytes → Prop) (c c' : Cred)
+    (hEUF : ∀ k m s, P.sigOK k m s = true → Signed k m)
+    (hParse : P.jwtInput c'.raw = P.jwtInput c.raw → jwtView c' = jwtView c)
+    (hfmt : c'.format = .jwt)
+    (hOnly : ∀ k j', c'.jwt = some j' → AuthorisedAt E at_ (jwtKeyID j'.kid c'.issuer) k → ∀ m, Signed k m → m = P.jwtInput c.raw)
+    (hdiff : jwtView c' ≠ jwtView c) :
+    verify cfg P E au true at_ c' ≠ .ok () := by
+  intro hv
+  obtain ⟨_, _, _, _, _, _, hsig⟩ := verify_ok_iff.mp hv
+  obtain ⟨_, hsv⟩ := hsig rfl
+  unfold SigValid at hsv
+  simp only [hfmt] at hsv
+  obtain ⟨j, k, hj, _, ha, _, _, hs, _⟩ := hsv
+  exact hdiff (hParse (hOnly k j hj ha _ (hEUF _ _ _ hs)))
+
+/-- The stated RESIDUE: a claim the JSON-LD context does not define is outside the signed view; under the converse
+    contract (`hComplete`: documents with the same signed view have the same canonical bytes) adding it changes neither the
+    canonical form nor the verdict (nor the error class) of `Verify`.  The node's own issuer refuses to sign such members
+    (`AllFieldsDefined`, see `own_output_verifies_ld`), a foreign issuer may not. -/
+theorem undefined_member_unsigned (cfg : Cfg) (P : Crypto) (E : Env) (au cs : Bool) (at_ : Option Time)
+    (defined : String → Bool) (c : Cred) (path v : String)
+    (hund : defined path = false)
+    (hComplete : ∀ c', signedView defined c' = signedView defined c → c'.stripProof.format = c.stripProof.format →
+        P.canon c'.stripProof = P.canon c.stripProof) :
+    signedView defined { c with claims := c.claims ++ [(path, v)] } = signedView defined c ∧
+    verify cfg P E au cs at_ { c with claims := c.claims ++ [(path, v)] } = verify cfg P E au cs at_ c := by
+  have hsv : signedView defined { c with claims := c.claims ++ [(path, v)] } = signedView defined c := by
+    simp [signedView, List.filter_append, hund]
+  refine ⟨hsv, ?_⟩
+  exact verify_congr_claims cfg P E au cs at_ c _ (hComplete _ hsv rfl)
+
+/-- JSON-LD presentation: what was said for credentials holds for the holder and the carried credentials, PROVIDED the raw
+    document has no member that only differs by case from a member go-did reads (`caseVariant = false`, which acceptance
+    implies since repo commit e2f889b; before it the contract `hCanon` was false of the implementation: see the corpus
+    witness).  The order of carried credentials is not covered (`Perm`). -/
+theorem tamper_evident_vp (cfg : Cfg) (P : Crypto) (E : Env) (vf au : Bool) (at_ : Option Time)
+    (Signed : Key → Bytes → Prop) (defined : String → Bool)
+    (vp vp' : Pres) (p : Proof)
+    (hEUF : ∀ k m s, P.sigOK k m s = true → Signed k m)
+    (hTbs : ∀ p' : Proof, vp'.proof = .one p' → tbs P p' (P.canonVP vp'.stripProof) = tbs P p (P.canonVP vp.stripProof) →
+        P.canonProof p'.options = P.canonProof p.options ∧ P.canonVP vp'.stripProof = P.canonVP vp.stripProof)
+    (hCanon : vp'.caseVariant = false → P.canonVP vp'.stripProof = P.canonVP vp.stripProof →
+        (signedViewVP defined vp').1 = (signedViewVP defined vp).1 ∧ ((signedViewVP defined vp').2).Perm (signedViewVP defined vp).2)
+    (hCanonProof : ∀ p' : Proof, vp'.proof = .one p' → P.canonProof p'.options = P.canonProof p.options → p'.options = p.options)
+    (hfmt : vp'.format = .ld)
+    (hOnly : ∀ k p', vp'.proof = .one p' → AuthorisedAt E at_ p'.vm k → ∀ m, Signed k m → m = tbs P p (P.canonVP vp.stripProof))
+    (hv : verifyVP cfg P E vf au at_ vp' = .ok ()) :
+    vp'.holder = vp.holder ∧ ((signedViewVP defined vp').2).Perm (signedViewVP defined vp).2 ∧
+      ∃ p', vp'.proof = .one p' ∧ p'.options = p.options := by
+  obtain ⟨s, _, _, _, _, _, hsig, _⟩ := verifyVP_ok_iff.mp hv
+  unfold VpSigValid at hsig
+  simp only [hfmt] at hsig
+  obtain ⟨_, hcv, p', k, hp', _, _, ha, _, hs, _⟩ := hsig
+  simp only at hp' hcv
+  obtain ⟨h1, h2⟩ := hTbs p' hp' (hOnly k p' hp' ha _ (hEUF _ _ _ hs))
+  obtain ⟨h3, h4⟩ := hCanon hcv h2
+  exact ⟨h3, h4, p', hp', hCanonProof p' hp' h1⟩
+
+/-! ## 4. the node's own output verifies on any node that can resolve the signer -/
+
+/-- A JSON-LD credential returned by `Issue` (so: accepted input — issuer is a DID with an assertion key on the issuing
+    node, at most one extra type, all fields defined by the context, type-specific validator passed) is reported valid by
+    `Verify` on ANY node `E'` and at any validation time at which: the issuer and the signing key id resolve (key listed as
+    assertion method), the key id is `<issuer>#…`, the time is inside the credential's window, the credential is not
+    revoked there, and the issuer is trusted there (or trust is not required).  `hSig` is signature correctness. -/
+theorem own_output_verifies_ld (cfg : Cfg) (P : Crypto) (E : Env) (sign : Key → Bytes → Sig) (allDefined : Cred → Bool)
+    (rawOf : Cred → String) (t : Template) (uuid : String) (now : Time) (c : Cred)
+    (hSig : ∀ k m, P.sigOK k m (sign k m) = true)
+    (hissue : issue P E sign allDefined rawOf .ld t uuid now = .ok c) :
+    ∃ d kid key, E.parseDID t.issuer = some d ∧ resolveKey E d = some (kid, key) ∧ allDefined c = true ∧
+      ∀ (E' : Env) (au : Bool) (at_ : Option Time),
+        E'.didOfURL = E.didOfURL →
+        (∃ d', E'.parseDID t.issuer = some d' ∧ (E'.resolve at_ d').isSome = true) →
+        resolveKeyByID E' at_ kid = some key →
+        beforeHash kid = t.issuer →
+        (now ≤ atOf E' at_ + cfg.maxSkew ∧ ∀ e, t.expires = some e → atOf E' at_ - cfg.maxSkew ≤ e) →
+        E'.revoked (d ++ "#" ++ uuid) = false →
+        (au = true ∨ ∀ ty ∈ c.types, ty ≠ vcType → E'.trusted ty t.issuer = true) →
+        verify cfg P E' au true at_ c = .ok () := by
+  unfold issue at hissue
+  cases hd : E.parseDID t.issuer with
+  | none => simp [hd] at hissue
+  | some d =>
+    simp only [hd] at hissue
+    cases hk : resolveKey E d with
+    | none => simp [hk] at hissue
+    | some kk =>
+      obtain ⟨kid, key⟩ := kk
+      simp only [hk] at hissue
+      split at hissue
+      · cases hissue
+      · rename_i hty
+        split at hissue
+        · cases hissue
+        · rename_i hdef
+          split at hissue
+          · rename_i hval
+            cases hissue
+            refine ⟨d, kid, key, rfl, hk, by simpa using hdef, ?_⟩
+            intro E' au at_ hurl hres hkey hkid hwin hrev htr
+            rw [verify_ok_iff]
+            have hval' := hval
+            rw [← validate_congr hurl] at hval'
+            refine ⟨hval', issued_types_le_two t hty, ?_, ?_, htr, hwin, ?_⟩
+            · intro id hid; simp [unsignedCred] at hid; rw [← hid]; exact hrev
+            · simp [statusVerdict, unsignedCred, statusVerdictL]
+            · intro _
+              refine ⟨hres, ?_⟩
+              unfold SigValid
+              simp only [unsignedCred]
+              refine ⟨validate_pass_issuer hval, rfl, _, key, rfl, ?_, hkid, resolveKeyByID_some hkey, hkey, ?_, ?_⟩
+              · intro h0; simp only at h0; rw [h0, beforeHash_empty] at hkid
+                exact validate_pass_issuer hval hkid.symm
+              · exact hSig _ _
+              · rw [proofValidAt_iff]; exact ⟨hwin.1, by intro e he; cases he⟩
+          · cases hissue
+          · cases hissue
+
+theorem own_output_verifies_jwt (cfg : Cfg) (P : Crypto) (E : Env) (sign : Key → Bytes → Sig) (allDefined : Cred → Bool)
+    (rawOf : Cred → String) (t : Template) (uuid : String) (now : Time) (c : Cred)
+    (hSig : ∀ k m, P.sigOK k m (sign k m) = true)
+    (hAlg : cfg.supportedAlgs.contains "ES256" = true)
+    (hissue : issue P E sign allDefined rawOf .jwt t uuid now = .ok c) :
+    ∃ d kid key, E.parseDID t.issuer = some d ∧ resolveKey E d = some (kid, key) ∧
+      ∀ (E' : Env) (au : Bool) (at_ : Option Time),
+        E'.didOfURL = E.didOfURL →
+        (∃ d', E'.parseDID t.issuer = some d' ∧ (E'.resolve at_ d').isSome = true) →
+        resolveKeyByID E' at_ (jwtKeyID kid t.issuer) = some key →
+        (kid = "" ∨ beforeHash kid = t.issuer) →
+        (now ≤ atOf E' at_ + cfg.maxSkew ∧ ∀ e, t.expires = some e → atOf E' at_ - cfg.maxSkew ≤ e) →
+        (∀ j, c.jwt = some j → jwtTimeOK j (atOf E' at_) = true) →
+        E'.revoked (d ++ "#" ++ uuid) = false →
+        (au = true ∨ ∀ ty ∈ c.types, ty ≠ vcType → E'.trusted ty t.issuer = true) →
+        verify cfg P E' au true at_ c = .ok () := by
+  unfold issue at hissue
+  cases hd : E.parseDID t.issuer with
+  | none => simp [hd] at hissue
+  | some d =>
+    simp only [hd] at hissue
+    cases hk : resolveKey E d with
+    | none => simp [hk] at hissue
+    | some kk =>
+      obtain ⟨kid, key⟩ := kk
+      simp only [hk] at hissue
+      split at hissue
+      · cases hissue
+      · rename_i hty
+        split at hissue
+        · cases hissue
+        · split at hissue
+          · rename_i hval
+            cases hissue
+            refine ⟨d, kid, key, rfl, hk, ?_⟩
+            intro E' au at_ hurl hres hkey hkid hwin hclock hrev htr
+            rw [verify_ok_iff]
+            have hval' := hval
+            rw [← validate_congr hurl] at hval'
+            refine ⟨hval', issued_types_le_two t hty, ?_, ?_, htr, hwin, ?_⟩
+            · intro id hid; simp [unsignedCred] at hid; rw [← hid]; exact hrev
+            · simp [statusVerdict, unsignedCred, statusVerdictL]
+            · intro _
+              refine ⟨hres, ?_⟩
+              unfold SigValid
+              simp only [unsignedCred]
+              exact ⟨_, key, rfl, hkid, resolveKeyByID_some hkey, hkey, hAlg, hSig _ _, hclock _ rfl⟩
+          · cases hissue
+          · cases hissue
+
+theorem own_presentation_verifies (cfg : Cfg) (P : Crypto) (E : Env) (sign : Key → Bytes → Sig) (rawOf : Pres → String)
+    (fmt : Format) (signer : String) (vcs : List Cred) (o : PresOptions) (vp : Pres)
+    (hSig : ∀ k m, P.sigOK k m (sign k m) = true)
+    (hAlg : cfg.supportedAlgs.contains "ES256" = true)
+    (hpres : present P E sign rawOf fmt signer vcs o = .ok vp) :
+    ∃ kid key, resolveKey E signer = some (kid, key) ∧ vp.vcs = vcs ∧
+      ∀ (E' : Env) (au : Bool) (at_ : Option Time),
+        signer ≠ "" → kid ≠ "" →
+        E'.didOfURL kid = some signer →
+        beforeHash kid = signer →
+        resolveKeyByID E' at_ (jwtKeyID kid signer) = some key → resolveKeyByID E' at_ kid = some key →
+        (∀ c ∈ vcs, subjectDID c = some signer) →
+        (o.holder = none ∨ o.holder = some signer) →
+        (o.created ≤ atOf E' at_ + cfg.maxSkew ∧ ∀ e, o.expires = some e → atOf E' at_ ≤ e + cfg.maxSkew) →
+        (∀ j, vp.jwt = some j → jwtTimeOK j (atOf E' at_) = true) →
+        (∀ c ∈ vcs, verify cfg P E' au (vcCheckSig vp c) at_ c = .ok ()) →
+        verifyVP cfg P E' true au at_ vp = .ok () := by
+  unfold present at hpres
+  cases hk : resolveKey E signer with
+  | none => simp [hk] at hpres
+  | some kk =>
+    obtain ⟨kid, key⟩ := kk
+    simp only [hk] at hpres
+    cases fmt with
+    | other => simp at hpres
+    | ld =>
+      simp only at hpres
+      cases hpres
+      refine ⟨kid, key, rfl, rfl, ?_⟩
+      intro E' au at_ hs hkid hurl hbh _ hkey hsub hhold hwin _ hvcs
+      rw [verifyVP_ok_iff]
+      refine ⟨signer, if vcs.isEmpty then "" else signer, ?_, resolveSubjectDID_of_all hsub (Or.inl rfl), ?_, ?_, ?_, fun _ => hvcs⟩
+      · simp [presentationSigner, hurl, hs]
+      · cases vcs <;> simp
+      · intro _; exact hhold
+      · unfold VpSigValid
+        simp only
+        refine ⟨hs, rfl, _, key, rfl, hkid, hbh, resolveKeyByID_some hkey, hkey, hSig _ _, ?_⟩
+        rw [proofValidAt_iff]; exact hwin
+    | jwt =>
+      simp only at hpres
+      cases hpres
+      refine ⟨kid, key, rfl, rfl, ?_⟩
+      intro E' au at_ hs hkid hurl hbh hkey _ hsub hhold _ hclock hvcs
+      rw [verifyVP_ok_iff]
+      refine ⟨signer, if vcs.isEmpty then "" else signer, ?_, resolveSubjectDID_of_all hsub (Or.inl rfl), ?_, ?_, ?_, fun _ => hvcs⟩
+      · simp [presentationSigner, hurl, hkid]
+      · cases vcs <;> simp
+      · intro _; exact hhold
+      · unfold VpSigValid
+        simp only
+        exact ⟨_, key, rfl, Or.inr hbh, resolveKeyByID_some hkey, hkey, hAlg, hSig _ _, hclock _ rfl⟩
+
+/-! ## non-vacuity examples -/
+
+-- valid_only_if / check_order: an accepted credential in each format, an accepted presentation
+example : verify exCfg exP exE false true (some 2000) exC = .ok () := by decide
+example : verify exCfg exP exE false true (some 2000) exJ = .ok () := by decide
+example : verifyVP exCfg exP exE true false (some 2000) exVP = .ok () := by decide
+-- ... and each conjunct matters: other issuer, too early, untrusted type, revoked, wrong key relation
+example : verify exCfg exP exE false true (some 2000) { exC with issuer := "did:x:j" } ≠ .ok () := by decide
+example : verify exCfg exP exE false true (some (-5000)) exC ≠ .ok () := by decide
+example : verify exCfg exP exE false true (some 2000) { exC with types := [vcType, "U"] } = .err "untrusted" := by decide
+example : verify exCfg exP { exE with revoked := fun _ => true } false true (some 2000) exC = .err "revoked" := by decide
+example : verify exCfg exP { exE with resolve := fun _ _ => some { assertion := [] } } false true (some 2000) exC = .err "key-unresolvable" := by decide
+example : verifyVP exCfg exP exE true false (some 2000) { exVP with vcs := [{ exC with subjects := some [.did "did:x:h"] }] } = .err "vp-not-by-subject" := by decide
+-- tamper_evident: its hypotheses are satisfiable together.  Crypto in which exactly ONE (key, message, signature) triple
+-- verifies (so unforgeability holds with `Signed k m := m = exM0`); c' = the signed credential with another issuance date.
+example : ∃ (Signed : Key → Bytes → Prop) (c' : Cred),
+    verify exCfg exP2 exE false true (some 2000) exC2 = .ok () ∧
+    (∀ k m s, exP2.sigOK k m s = true → Signed k m) ∧
+    (∀ p' : Proof, c'.proof = .one p' → tbs exP2 p' (exP2.canon c'.stripProof) = tbs exP2 exProof (exP2.canon exC2.stripProof) →
+        exP2.canonProof p'.options = exP2.canonProof exProof.options ∧ exP2.canon c'.stripProof = exP2.canon exC2.stripProof) ∧
+    (exP2.canon c'.stripProof = exP2.canon exC2.stripProof → signedView (fun _ => true) c' = signedView (fun _ => true) exC2) ∧
+    (∀ p' : Proof, c'.proof = .one p' → exP2.canonProof p'.options = exP2.canonProof exProof.options → p'.options = exProof.options) ∧
+    c'.format = .ld ∧
+    (∀ k p', c'.proof = .one p' → AuthorisedAt exE (some 2000) p'.vm k → ∀ m, Signed k m → m = tbs exP2 exProof (exP2.canon exC2.stripProof)) ∧
+    signedView (fun _ => true) c' ≠ signedView (fun _ => true) exC2 :=
+  ⟨fun _ m => m = exM0, { exC2 with issued := 2000 }, by decide,
+   by intro k m s h; simp [exP2] at h; exact h.1.2,
+   by intro p' hp'; cases hp'; decide,
+   by decide,
+   by intro p' hp'; cases hp'; decide,
+   rfl,
+   by intro k p' _ _ m hm; rw [hm]; decide,
+   by decide⟩
+-- own_output_verifies: Issue accepts the template and its output verifies
+example : (issue exP exE exSign (fun _ => true) (fun _ => "hdr.claims") .ld exT "1" 1000).isOk = true := by decide
+example : ∀ c, issue exP exE exSign (fun _ => true) (fun _ => "hdr.claims") .ld exT "1" 1000 = .ok c →
+    verify exCfg exP exE false true (some 2000) c = .ok () := by
+  intro c h
+  have hc : c = exC := by
+    have : issue exP exE exSign (fun _ => true) (fun _ => "hdr.claims") .ld exT "1" 1000 = .ok exC := by decide
+    rw [this] at h; cases h; rfl
+  subst hc; decide
+
 /-! ## facts regenerated from the source (extract/c01.go): the check sequences the model's check tables stand for -/
 
 def verifyReturnsSrc : List (String × String) :=
